@@ -305,6 +305,25 @@ func (a *c18actor) run(seed uint64, rounds, opsPerRound int, all []*c18actor, co
 	}
 }
 
+func coldRng(seed uint64, id, kind int) *vf.Rng {
+	g := vf.NewRng(seed ^ uint64(id+1)*0x9E3779B97F4A7C15 ^ uint64(kind+1)<<40)
+	g.U64()
+	return g
+}
+
+// runCold repeats an actor's cold-start sequence alone: one operation of every kind.
+func (a *c18actor) runCold(seed uint64) uint64 {
+	d := uint64(1469598103934665603)
+	a.sys = new(emulator.System)
+	if err := a.sys.CreateEmulator(); err != nil {
+		panic(err)
+	}
+	for kind := 0; kind < nKinds; kind++ {
+		d = mixU64(d, a.op(kind, coldRng(seed, a.id, kind)))
+	}
+	return d
+}
+
 func sharedDigest() [4]uint64 {
 	var msg uint64 = 1469598103934665603
 	msg = mixStr(msg, util.ErrUnmappedAddress.Error())
@@ -313,7 +332,7 @@ func sharedDigest() [4]uint64 {
 }
 
 func C18(r *vf.Run) {
-	r.Rule = "G goroutines (several G / GOMAXPROCS configurations), each owning its own emulator.System (tracing on), cpu65c816.CPU+bus.Bus, cpualt.CPU, asm.Emitter (listing, Clone/Append, Finalize), snes.ROM+Header (BusReader/BusWriter incl. the shared always-failing instance), and calling the eight mapping functions, RegionNames and the colour functions, under the Go race detector; every actor's result digest is compared with the digest of the same workload run alone; the package-level state digest (hook) is compared before/after every configuration. A cell is a pair of operation kinds observed overlapping in time"
+	r.Rule = "G goroutines (several G / GOMAXPROCS configurations), each owning its own emulator.System (tracing on), cpu65c816.CPU+bus.Bus, cpualt.CPU, asm.Emitter (listing, Clone/Append, Finalize), snes.ROM+Header (BusReader/BusWriter incl. the shared always-failing instance), and calling the eight mapping functions, RegionNames and the colour functions, under the Go race detector, preceded by a cold-start phase in which the first use of every object kind in the process happens on 8 goroutines at once; every actor's result digest is compared with the digest of the same workload run alone; the package-level state digest (hook) is compared before/after every configuration. A cell is a pair of operation kinds observed overlapping in time"
 	r.Assume = []string{"built with -race by ./check (race reports are read from the GORACE log, the exit code is not trusted)", "sharing one instance between goroutines is not promised and not exercised", "a racy access on a path the workload never drives is not seen"}
 	raceEnabled := false
 	logPath := ""
@@ -343,6 +362,41 @@ func C18(r *vf.Run) {
 	}
 	if !r.Phase("concurrent-instances") {
 		return
+	}
+	// cold start: the very first use of every kind of object in this process happens on 8 goroutines
+	// released at the same instant (lazy initialisation in the library must be safe); the same
+	// sequences are then repeated alone and compared
+	{
+		const G = 8
+		seed := r.Rand("cold").U64()
+		before := sharedDigest()
+		cold := make([]uint64, G)
+		coldActors := make([]*c18actor, G)
+		vf.Parallel(G, G, func(w, i int) { // the constructors are first used concurrently as well
+			coldActors[i] = newActor(i)
+			coldActors[i].sys = new(emulator.System)
+			if err := coldActors[i].sys.CreateEmulator(); err != nil {
+				panic(err)
+			}
+			cold[i] = 1469598103934665603
+		})
+		for kind := 0; kind < nKinds; kind++ {
+			// one barrier per kind: all 8 goroutines enter the kind's first-use code at the same instant,
+			// with no synchronisation between them that could hide an unsynchronised lazy initialisation
+			vf.Parallel(G, G, func(w, i int) {
+				cold[i] = mixU64(cold[i], coldActors[i].op(kind, coldRng(seed, i, kind)))
+			})
+		}
+		if sharedDigest() != before {
+			r.Fail("shared-state-changed", "package-level state digest changed during the cold-start phase", nil)
+		}
+		for i := 0; i < G; i++ {
+			if solo := newActor(i).runCold(seed); solo != cold[i] {
+				r.Fail("result-differs-from-solo", fmt.Sprintf("cold start: actor %d produced digest %016x when every object kind was first used concurrently, %016x alone", i, cold[i], solo), nil)
+			}
+			r.Eval(nKinds)
+		}
+		r.Cell("cold-start:first-use-concurrent")
 	}
 	actors := make([]*c18actor, maxG)
 	for i := range actors {
